@@ -358,4 +358,51 @@ def loadSettings (file : Settings) (defaults : Settings) : Settings :=
 def configBody (m : Settings) : String :=
   String.join (m.map (fun kv => "(setq " ++ kv.1 ++ " " ++ kv.2 ++ ")\n"))
 
+/-! ### several configuration directories in one process (round 4, seeded mutant C20-10)
+
+`modifiedVars` and the values of the variables belong to the PROCESS; `configFilename` is the
+directory of the current session; the files belong to the directories. `(repl "dir")`,
+`SetConfigDir` called again and tests switch directories inside one process, and somebody else may
+remove / recreate / replace a `config.lisp` between two sessions. -/
+
+/-- the variables marked modified in this process with their current values, the directory
+`config.lisp` is written to, and `config.lisp` of every directory (`none` = no file; `some s` = the
+header followed by the setqs `s`) -/
+structure CfgProc where
+  mods : Settings
+  dir  : Option Nat
+  disk : Nat → Option Settings
+
+inductive CfgEvent where
+  /-- `[ZeroMods;] SetConfigDir d`: a file that exists is evaluated (every setq marks its variable),
+  a missing one is created with the header only -/
+  | start (d : Nat) (zero : Bool)
+  /-- the set hook: mark, rewrite the file of the current directory from all marked variables -/
+  | setq (k v : String)
+  /-- somebody else removes (`none`), recreates (`some []`) or replaces `config.lisp` of `d` -/
+  | ext (d : Nat) (c : Option Settings)
+  /-- the process ends; the next one starts with nothing marked and no directory -/
+  | exit
+
+def CfgProc.put (p : CfgProc) (d : Nat) (c : Option Settings) : Nat → Option Settings :=
+  fun d' => if d' = d then c else p.disk d'
+
+def CfgProc.apply (p : CfgProc) : CfgEvent → CfgProc
+  | .start d z =>
+    let m := if z then [] else p.mods
+    match p.disk d with
+    | some file => { p with mods := loadSettings file m, dir := some d }
+    | none => { mods := m, dir := some d, disk := p.put d (some []) }
+  | .setq k v =>
+    let m := setVar p.mods k v
+    match p.dir with
+    | some d => { p with mods := m, disk := p.put d (some m) }
+    | none => { p with mods := m }
+  | .ext d c => { p with disk := p.put d c }
+  | .exit => { p with mods := [], dir := none }
+
+def CfgProc.run (p : CfgProc) (es : List CfgEvent) : CfgProc := es.foldl CfgProc.apply p
+
+def CfgProc.init : CfgProc := { mods := [], dir := none, disk := fun _ => none }
+
 end SlipVerif.History
